@@ -2,11 +2,13 @@ package main
 
 import (
 	"bytes"
+	"context"
 	"crypto/sha1"
 	"fmt"
 	"github.com/taskctl/taskctl/pkg/runner"
 	"math/rand"
 	"os"
+	"os/exec"
 	"path/filepath"
 	"regexp"
 	"strings"
@@ -341,6 +343,7 @@ func formatSequenceCase(col *Collector, dir string, format string, targets []str
 		}
 	}
 	cs.Impl = fmt.Sprintf("exit=%d", res.exit)
+	lost := ""
 	if format == "cockpit" && !strings.Contains(strings.Join(targets, " "), "mixed") {
 		// the "Finished" lines of the cockpit against the model: targets run one after the other; a task that never
 		// starts its output (skipped, failing before hook) is only removed
@@ -361,6 +364,19 @@ func formatSequenceCase(col *Collector, dir string, format string, targets []str
 		}
 		cs.Line = "cockpit " + strings.Join(acts, " ")
 		cs.Impl = "finished=" + strings.Join(got, ",")
+		// independent of the model: every task that was shown as running is reported as finished before taskctl exits
+		for _, t := range executed {
+			if t == "inter" || t == "skipped" || t == "beforefails" {
+				continue
+			}
+			seen := false
+			for _, g := range got {
+				seen = seen || g == fmt.Sprint(ids[t])
+			}
+			if !seen && !res.timedOut && !res.panicked {
+				lost = fmt.Sprintf("task %s ran under the cockpit format and taskctl exited without its \"Finished\" line (lines printed for: %s)", t, strings.Join(got, ","))
+			}
+		}
 	}
 	switch {
 	case res.timedOut:
@@ -369,6 +385,8 @@ func formatSequenceCase(col *Collector, dir string, format string, targets []str
 		cs.Fail, cs.Sig = fmt.Sprintf("output layer crashed (exit %d): %s", res.exit, clipStr(firstPanicLine(res.stderr), 160)), "c19-format-crash"
 	case res.exit != wantExit:
 		cs.Fail, cs.Sig = fmt.Sprintf("exit status %d under --output %s, expected %d as under the other formats", res.exit, format, wantExit), "c19-format-dependent-result"
+	case lost != "":
+		cs.Fail, cs.Sig = lost, "c19-cockpit-lines-lost"
 	default:
 		for _, t := range executed {
 			text, ok := prints[t]
@@ -479,10 +497,15 @@ func runC19(col *Collector, tier string, seed int64) {
 	}
 	parallel(len(sjobs), 8, func(i int) { formatSequenceCase(col, dir, sjobs[i].f, sjobs[i].t) })
 	recordedAcrossFormats(col)
+	for _, oc := range []string{"succeeded", "failed", "succeeded", "failed"} {
+		cockpitGateCase(col, oc)
+	}
 	if tier == "thorough" {
 		cockpitStressCase(col, 16, 3000)
+		cockpitStressCaseW(col, 16, 1500, 2*time.Millisecond)
 	} else {
 		cockpitStressCase(col, 16, 600)
+		cockpitStressCaseW(col, 16, 300, 2*time.Millisecond)
 	}
 }
 
@@ -577,8 +600,21 @@ func recordedAcrossFormats(col *Collector) {
 
 // the cockpit under stress: many tasks finishing (successfully and not) while the indicator is being redrawn, on one
 // runner - the run must return; a lock taken in two orders by the finishing task and the redraw goroutine shows as a hang
+// a terminal that takes its time: every write lasts a moment, so that a redraw of the indicator is a window other
+// goroutines can fall into
+type slowWriter struct{ d time.Duration }
+
+func (w slowWriter) Write(p []byte) (int, error) {
+	time.Sleep(w.d)
+	return len(p), nil
+}
+
 func cockpitStressCase(col *Collector, workers, rounds int) {
-	cs := Case{Replay: fmt.Sprintf("cockpit format: %d workers x %d tasks each (every second one fails) on one runner", workers, rounds), Tags: []string{"cockpit-stress"}, NonTrivial: true}
+	cockpitStressCaseW(col, workers, rounds, 0)
+}
+
+func cockpitStressCaseW(col *Collector, workers, rounds int, slow time.Duration) {
+	cs := Case{Replay: fmt.Sprintf("cockpit format: %d workers x %d tasks each (every second one fails) on one runner; every write to the terminal takes %v", workers, rounds, slow), Tags: []string{"cockpit-stress"}, NonTrivial: true}
 	r, err := runner.NewTaskRunner()
 	if err != nil {
 		cs.Fail, cs.Sig = err.Error(), "c19-setup"
@@ -586,6 +622,9 @@ func cockpitStressCase(col *Collector, workers, rounds int) {
 		return
 	}
 	r.Stdout, r.Stderr = devNull{}, devNull{}
+	if slow > 0 {
+		r.Stdout, r.Stderr = slowWriter{slow}, slowWriter{slow}
+	}
 	r.OutputFormat = output.FormatCockpit
 	done := make(chan string, workers)
 	for w := 0; w < workers; w++ {
@@ -619,5 +658,111 @@ func cockpitStressCase(col *Collector, workers, rounds int) {
 		}
 	}
 	cs.Impl = "returned=" + fmt.Sprint(cs.Fail == "")
+	col.Add(cs)
+}
+
+// ---- the cockpit with a terminal that stops in the middle of a redraw ----
+
+func init() { childFns["cockpitgate"] = cockpitGateChild }
+
+// gateWriter lets everything through until the redraw goroutine erases the indicator for the second time; that write
+// blocks until the gate is opened (the redraw goroutine is then inside its frame, holding whatever it holds)
+type gateWriter struct {
+	mu      sync.Mutex
+	erases  int
+	entered chan struct{}
+	release chan struct{}
+}
+
+func (w *gateWriter) Write(p []byte) (int, error) {
+	if bytes.Contains(p, []byte("\b")) || bytes.Contains(p, []byte("\x1b[K")) {
+		w.mu.Lock()
+		w.erases++
+		n := w.erases
+		w.mu.Unlock()
+		if n == 2 {
+			close(w.entered)
+			<-w.release
+		}
+	}
+	return len(p), nil
+}
+
+// child process (the cockpit is one per process): a task is shown as running; while a redraw is stopped in the middle
+// of its erase, the task ends - successfully or not (args[0]) - and its output is finished. Finishing a task never
+// waits for the terminal: it returns while the redraw is still stopped, and the layer closes once the gate opens.
+func cockpitGateChild(args []string) {
+	failed := args[0] == "failed"
+	w := &gateWriter{entered: make(chan struct{}), release: make(chan struct{})}
+	t := task.FromCommands("true")
+	t.Name = "gated"
+	o, err := output.NewTaskOutput(t, output.FormatCockpit, w, w)
+	if err != nil {
+		fmt.Println("RESULT setup " + err.Error())
+		return
+	}
+	if err := o.Start(); err != nil {
+		fmt.Println("RESULT setup " + err.Error())
+		return
+	}
+	select {
+	case <-w.entered:
+	case <-time.After(5 * time.Second):
+		fmt.Println("RESULT no-redraw")
+		return
+	}
+	t.Errored = failed
+	if failed {
+		t.ExitCode = 3
+	}
+	fin := make(chan error, 1)
+	go func() { fin <- o.Finish() }()
+	finishedInFrame := false
+	select {
+	case <-fin:
+		finishedInFrame = true
+	case <-time.After(1500 * time.Millisecond):
+	}
+	close(w.release)
+	finishedAtAll := finishedInFrame
+	if !finishedAtAll {
+		select {
+		case <-fin:
+			finishedAtAll = true
+		case <-time.After(3 * time.Second):
+		}
+	}
+	closed := make(chan struct{})
+	go func() { output.Close(); close(closed) }()
+	closedOK := false
+	select {
+	case <-closed:
+		closedOK = true
+	case <-time.After(3 * time.Second):
+	}
+	fmt.Printf("RESULT finish-returned-during-the-frame=%v finish-returned=%v close-returned=%v\n", finishedInFrame, finishedAtAll, closedOK)
+}
+
+func cockpitGateCase(col *Collector, outcome string) {
+	cs := Case{Tags: []string{"cockpit-gated-redraw"}, NonTrivial: true, Replay: fmt.Sprintf("cockpit format: a task shown as running ends (%s) while a redraw of the indicator is stopped in the middle of its erase by the terminal; then the layer is closed", outcome)}
+	self, _ := os.Executable()
+	ctx, cancel := context.WithTimeout(context.Background(), 20*time.Second)
+	defer cancel()
+	out, err := exec.CommandContext(ctx, self, "-child", "cockpitgate", outcome).CombinedOutput()
+	res := ""
+	for _, l := range strings.Split(string(out), "\n") {
+		if strings.HasPrefix(l, "RESULT ") {
+			res = strings.TrimPrefix(l, "RESULT ")
+		}
+	}
+	cs.Impl = res
+	switch {
+	case ctx.Err() != nil || res == "":
+		cs.Fail, cs.Sig = fmt.Sprintf("the child did not report within 20s (%v): %s", err, clipStr(firstPanicLine(string(out)), 200)), "c19-format-hang"
+	case strings.Contains(res, "setup") || strings.Contains(res, "no-redraw"):
+		cs.Fail, cs.Sig = "scenario could not be set up: "+res, "c19-setup"
+	case !strings.Contains(res, "finish-returned=true") || !strings.Contains(res, "close-returned=true"):
+		cs.Fail, cs.Sig = "a task that ended during a redraw: "+res+" (the output layer hangs)", "c19-format-hang"
+	}
 	col.Add(cs)
 }
